@@ -305,6 +305,11 @@ def run(rep, index):
                 raise AnalysisError("C14: super().%s in ProtocolEnumMeta" % attr)
             return Native(lookup, "EnumType.__call__")
         ev.super_hook = super_hook
+        # "any integer" includes instances of int subclasses (bools, other enums' members): the class of the value is
+        # int itself on one path and a proper subclass on the other
+        int_class = IntClass(w)
+        ev.class_of = lambda fr, o, node: int_class if w.is_value(o) else _no_class(o)
+        ev.natives["type"] = lambda ev_, a, kw, n: int_class if (len(a) == 1 and w.is_value(a[0])) else _no_class(a[0] if a else None)
         args = [c, w.value] + ([NamesTok()] if with_names else [])
         res = ev.call(FuncRef(m, fn, ClassRef(m, cls)), args, {})
         return w, c, res
@@ -393,6 +398,38 @@ def run(rep, index):
                          "the int-derived fallback compares/hashes as its integer: stdlib semantics, trusted")
     rep.trusted.append("enum.py of the running interpreter (%s)" % path_)
     generated_enums(rep, index)
+
+
+class IntClass:
+    """type(value) for an arbitrary integer: `int` or a subclass of it (one boolean per path)."""
+
+    def __init__(self, w):
+        self.w = w
+        self.plain = None
+
+    def abstract_is(self, fr, other, node):
+        if getattr(other, "name", None) == "int":
+            if self.plain is None:
+                self.plain = B.cur().choose("type(value) is int (not a subclass)")
+            return self.plain
+        if other is self:
+            return True
+        return False
+
+    def compare(self, fr, op, other, node):
+        r = self.abstract_is(fr, other, node)
+        if isinstance(op, ast.Eq):
+            return r
+        if isinstance(op, ast.NotEq):
+            return not r
+        raise AnalysisError("C14: ordering comparison of a class")
+
+    def __repr__(self):
+        return "<type(value)>"
+
+
+def _no_class(o):
+    raise AnalysisError("C14: the class of %r is not modelled" % (o,))
 
 
 class NamesTok:
